@@ -248,6 +248,10 @@
 )]
 #![warn(rust_2018_idioms)]
 #![allow(clippy::cognitive_complexity)]
+#![allow(unexpected_cfgs)]
+
+#[cfg(flurry_verif)]
+pub mod verif;
 
 mod map;
 mod map_ref;
